@@ -168,7 +168,7 @@ func init() {
 		Assumptions: []string{"observation through the afero API (Open+Readdir walk, Stat, full reads, Readlink)", "SQLite's own durability is trusted; the index file is copied at call boundaries"},
 		Gen: func(r *rand.Rand, tier string, relax Relax) *Case {
 			c := &Case{Cfg: GenConfig(r, 0.5), P: map[string]int64{}, S: map[string]string{}}
-			ops, u := GenHistory(r, GenOpts{MaxOps: 14, Symlinks: r.Float64() < 0.3, Handles: r.Float64() < 0.4, Sleeps: true, RS: c.Cfg.RecordSize})
+			ops, u := GenHistory(r, GenOpts{MaxOps: 14, Symlinks: r.Float64() < 0.3, Handles: r.Float64() < 0.4, Sleeps: true, RS: c.Cfg.RecordSize, NoSymlinkRename: relax["symlink-rename"]})
 			c.Ops = addRestarts(r, ops, 0.08)
 			c.S["style"] = u.Style
 			c.P["every"] = 1
@@ -211,7 +211,12 @@ func init() {
 		Assumptions: []string{"the drive is a regular file (tape devices are not simulated)", "GNU tar cross-check only in the thorough tier"},
 		Gen: func(r *rand.Rand, tier string, relax Relax) *Case {
 			c := &Case{Cfg: GenConfig(r, 0.5), P: map[string]int64{}, S: map[string]string{}}
-			ops, u := GenHistory(r, GenOpts{MaxOps: 14, Symlinks: r.Float64() < 0.3, Handles: r.Float64() < 0.5, Sleeps: r.Float64() < 0.3, RS: c.Cfg.RecordSize, ValidBias: 0.7})
+			o := GenOpts{MaxOps: 14, Symlinks: r.Float64() < 0.3, Handles: r.Float64() < 0.5, Sleeps: r.Float64() < 0.3, RS: c.Cfg.RecordSize, ValidBias: 0.7, NoSymlinkRename: relax["symlink-rename"]}
+			if relax["suffixnames"] {
+				// KF1: such a create appends its record and then fails to find the entry
+				o.AvoidSuffixes = activeSuffixes(c.Cfg)
+			}
+			ops, u := GenHistory(r, o)
 			c.Ops = addRestarts(r, ops, 0.05)
 			c.S["style"] = u.Style
 			return c
